@@ -42,7 +42,7 @@ func RewriteClause(decls map[ast.PredicateSym]*ast.Decl, clause ast.Clause) ast.
 	if decl, ok := decls[pred]; ok {
 		mode := unifyModes(decl.Modes())
 		boundVars = boundVars.Extend(
-			variablesForArgMode(clause.Head, mode, ast.ArgModeInput|ast.ArgModeInputOutput))
+			variablesForArgMode(clause.Head, mode, ast.ArgModeInput))
 	}
 	var premises []ast.Term
 	var delayNegAtom []ast.Term
